@@ -4,16 +4,18 @@
      focused    fs_wprog  <= 4 * that                                           =: w
      shrunk     ax_size   <= w * ((2 + X (2 + A)) + 2 (1 + X) w)                =: S
      linearized ax_size   <= S * (5 + 3 S)          (width <= size)             =: L
-     x86-64     instructions <= 30 + x86_K * L * (5 + 2 L)   (largest context <= size)
-   Every stage after focusing is bounded quadratically in its input because the PROVED stage bounds are
-   of the form size x (1 + width) and the only width estimate available without a scoping invariant is
-   width <= size; hence degree 8 in W * (4 + V) for the instruction count. *)
+     x86-64     instructions <= 30 + x86_K * L * (5 + 4 S)   (largest context of the linearized program
+                                                             <= 2 x size BEFORE linearization, SizeLinWidth.v)
+   Shrinking and linearization are bounded quadratically in their input because the PROVED stage bounds
+   are of the form size x (1 + width) and the only width estimate available without a scoping invariant
+   is width <= size; hence degree 4 in W * (4 + V) for the linearized program and 6 for the instruction
+   count (w^2 for S, S^2 for L, L * S for the code). *)
 From Coq Require Import String List ZArith NArith Bool Lia.
 From SCC Require Import Base.Sexp Lang.SynUtil Lang.FunSyn Lang.CoreSyn Lang.AxSyn Lang.AxSize Lang.FsSize Lang.CoreSize
      Model.Fun2Core Model.Uniquify Model.Focus Model.Shrink Model.SizeDefs Model.Linearize Model.LinCheck Model.Backend Model.X86
      Model.SizeFun Model.SizeWf
      Proof.LinBasics Proof.SizeLin Proof.SizeCodegen Proof.SizeShrink Proof.SizeFocus Proof.SizeGen Proof.SizeUniquify
-     Proof.SizeFun2CoreProg Proof.SizeCodegenWf Proof.SizeX86 Proof.LinearizeProof.
+     Proof.SizeFun2CoreProg Proof.SizeCodegenWf Proof.SizeX86 Proof.LinearizeProof Proof.SizeLinWidth.
 Import ListNotations.
 Open Scope list_scope.
 Open Scope N_scope.
@@ -96,6 +98,24 @@ Proof.
   destruct (maprs focus_def ds m) as [[ds' m']|e]; [|discriminate]. cbn [rbind] in H2. inversion H2; subst. split; reflexivity.
 Qed.
 
+(* ---------- AxCut after shrinking ---------- *)
+Theorem pipeline_shrunk_size : forall p c q s,
+  compile_prog p = Fun2Core.Ok c -> focus_prog c = Ok q -> shrink_prog q = SOk s ->
+  ax_size_prog s <= pipeline_shrunk_bound p.
+Proof.
+  intros p c q s H1 H2 H3.
+  pose proof (fun2core_size_weighted p c H1) as B1.
+  pose proof (focus_prog_size_lemma c q H2) as B2.
+  pose proof (shrink_size_lemma q s H3) as B3.
+  destruct (focus_decls p c q H1 H2) as [D1 D2].
+  assert (EX : prog_X q = fun_X p) by (unfold prog_X, fun_X; rewrite D1, D2; reflexivity).
+  assert (EA : prog_A q = fun_A p) by (unfold prog_A, fun_A; rewrite D1, D2; reflexivity).
+  rewrite EX, EA in B3. fold (b_shrunk (fs_wprog q) (fun_X p) (fun_A p)) in B3.
+  assert (W : fs_wprog q <= b_focused (f_wprog p) (fun_occ p)) by (unfold b_focused; lia).
+  pose proof (b_shrunk_mono _ _ (fun_X p) (fun_A p) W) as M3.
+  unfold pipeline_shrunk_bound. lia.
+Qed.
+
 (* ---------- AxCut after linearization ---------- *)
 Theorem pipeline_ax_size : forall p c q s,
   compile_prog p = Fun2Core.Ok c -> focus_prog c = Ok q -> shrink_prog q = SOk s ->
@@ -113,13 +133,24 @@ Proof.
   rewrite EX, EA in B3. fold (b_shrunk (fs_wprog q) (fun_X p) (fun_A p)) in B3.
   assert (W : fs_wprog q <= b_focused (f_wprog p) (fun_occ p)) by (unfold b_focused; lia).
   pose proof (b_shrunk_mono _ _ (fun_X p) (fun_A p) W) as M3.
-  unfold pipeline_ax_bound.
+  unfold pipeline_ax_bound, pipeline_shrunk_bound.
   eapply N.le_trans; [|apply b_linearized_mono; eapply N.le_trans; [exact B3|exact M3]].
   unfold b_linearized. nia.
 Qed.
 
 (* ---------- instructions of the x86-64 routine ---------- *)
-Definition pipeline_x86_bound (p : fcprog) : N := 30 + x86_K * b_cg (pipeline_ax_bound p).
+Definition pipeline_x86_bound (p : fcprog) : N := 30 + x86_K * pipeline_cg_bound p.
+
+Lemma pipeline_cg : forall p c q s,
+  compile_prog p = Fun2Core.Ok c -> focus_prog c = Ok q -> shrink_prog q = SOk s ->
+  cg_bound_defs (pdefs (linearize s)) <= pipeline_cg_bound p.
+Proof.
+  intros p c q s H1 H2 H3.
+  pose proof (pipeline_ax_size p c q s H1 H2 H3) as B.
+  pose proof (pipeline_shrunk_size p c q s H1 H2 H3) as BS.
+  pose proof (cg_bound_linearize s) as G.
+  unfold pipeline_cg_bound. eapply N.le_trans; [exact G|]. apply N.mul_le_mono; [exact B|lia].
+Qed.
 
 Theorem pipeline_x86_size : forall p c q s lc r n lc',
   compile_prog p = Fun2Core.Ok c -> focus_prog c = Ok q -> shrink_prog q = SOk s ->
@@ -128,27 +159,39 @@ Theorem pipeline_x86_size : forall p c q s lc r n lc',
   len r <= pipeline_x86_bound p.
 Proof.
   intros p c q s lc r n lc' H1 H2 H3 HW H5.
-  pose proof (pipeline_ax_size p c q s H1 H2 H3) as B.
+  pose proof (pipeline_cg p c q s H1 H2 H3) as G.
   pose proof (x86_compile_size _ _ _ _ _ HW H5) as C. unfold x86_bound, x86_routine_overhead in C.
-  pose proof (cg_bound_defs_le (pdefs (linearize s))) as G. fold (ax_size_prog (linearize s)) in G.
-  pose proof (b_cg_mono _ _ B) as M.
-  unfold pipeline_x86_bound. nia.
+  unfold pipeline_x86_bound.
+  assert (x86_K * cg_bound_defs (pdefs (linearize s)) <= x86_K * pipeline_cg_bound p) by (apply N.mul_le_mono_l; exact G).
+  lia.
 Qed.
 
-(* the closed form: degree 8 in W * (4 + V), degree 4 in the declaration coefficient *)
-Lemma pipeline_ax_closed : forall p,
-  pipeline_ax_bound p <= 8 * (4 + fun_X p * (4 + fun_A p)) ^ 2 * (12 * (f_wprog p * (4 + fun_occ p))) ^ 4.
+(* the closed forms: with w = 12 W (4 + V) and d = 4 + X (4 + A):
+   shrunk <= d w^2, linearized <= 8 (d w^2)^2, code-generation units <= 72 (d w^2)^3 *)
+Definition pl_w (p : fcprog) : N := 12 * (f_wprog p * (4 + fun_occ p)).
+Definition pl_d (p : fcprog) : N := 4 + fun_X p * (4 + fun_A p).
+Lemma pipeline_shrunk_closed : forall p, pipeline_shrunk_bound p <= pl_d p * pl_w p ^ 2.
 Proof.
-  intros p. unfold pipeline_ax_bound, b_linearized, b_shrunk, b_focused.
+  intros p. unfold pipeline_shrunk_bound, b_shrunk, b_focused, pl_d, pl_w.
   set (W := f_wprog p). set (V := fun_occ p). set (X := fun_X p). set (A := fun_A p).
   set (w := 4 * (W * (12 + 3 * V))). assert (Ew : w = 12 * (W * (4 + V))) by (unfold w; lia). rewrite <- Ew.
-  set (d := 4 + X * (4 + A)).
-  assert (S : w * (2 + X * (2 + A) + 2 * (1 + X) * w) <= d * w ^ 2).
-  { unfold d. rewrite N.pow_2_r. destruct (N.eq_dec w 0) as [->|Hw]; [lia|]. nia. }
-  set (Sv := w * (2 + X * (2 + A) + 2 * (1 + X) * w)) in *.
-  assert (L : Sv * (5 + 3 * Sv) <= 8 * (d * w ^ 2) ^ 2).
-  { rewrite N.pow_2_r. destruct (N.eq_dec Sv 0) as [->|Hs]; [lia|]. nia. }
-  eapply N.le_trans; [exact L|]. rewrite N.pow_mul_l, <- N.pow_mul_r. change (2 * 2) with 4. lia.
+  rewrite N.pow_2_r. destruct (N.eq_dec w 0) as [->|Hw]; [lia|]. nia.
+Qed.
+Lemma pipeline_ax_closed : forall p, pipeline_ax_bound p <= 8 * (pl_d p * pl_w p ^ 2) ^ 2.
+Proof.
+  intros p. unfold pipeline_ax_bound, b_linearized. pose proof (pipeline_shrunk_closed p) as S.
+  set (Sv := pipeline_shrunk_bound p) in *. set (t := pl_d p * pl_w p ^ 2) in *.
+  rewrite N.pow_2_r. destruct (N.eq_dec Sv 0) as [->|Hs]; [lia|]. nia.
+Qed.
+Lemma pipeline_cg_closed : forall p, pipeline_cg_bound p <= 72 * (pl_d p * pl_w p ^ 2) ^ 3.
+Proof.
+  intros p. unfold pipeline_cg_bound. pose proof (pipeline_shrunk_closed p) as S. pose proof (pipeline_ax_closed p) as L.
+  set (Sv := pipeline_shrunk_bound p) in *. set (Lv := pipeline_ax_bound p) in *. set (t := pl_d p * pl_w p ^ 2) in *.
+  assert (E : t ^ 3 = t ^ 2 * t) by (rewrite !N.pow_succ_r', N.pow_0_r || (change 3 with (N.succ 2); rewrite N.pow_succ_r'; lia); lia).
+  rewrite E. destruct (N.eq_dec t 0) as [Ht|Ht].
+  - rewrite Ht in *. assert (Sv = 0) by lia. assert (Lv = 0) by (rewrite N.pow_2_r in L; lia). subst. lia.
+  - assert (Lv * (5 + 4 * Sv) <= (8 * t ^ 2) * (9 * t)); [|lia].
+    apply N.mul_le_mono; [exact L|]. lia.
 Qed.
 
 (* ---------- the guard through the linearizer ---------- *)
